@@ -67,10 +67,15 @@ impl Xoshiro {
 }
 
 /// The single source of nondeterminism of a run.
+///
+/// Draws are grouped in segments: a world calls [`Chooser::mark`] at the start of every
+/// scheduler step, so that the draws of one step never shift into another step when the
+/// minimiser deletes or shortens a segment.
 pub struct Chooser {
     rng: Option<Xoshiro>,
-    /// Recorded (record mode) or given (replay mode) draws.
-    pub choices: Vec<u32>,
+    /// Recorded (record mode) or given (replay mode) draws, by segment.
+    pub choices: Vec<Vec<u32>>,
+    seg: usize,
     pos: usize,
     /// The run seed (also seeds service RNGs, keys, entropy).
     pub seed: u64,
@@ -82,45 +87,56 @@ impl Chooser {
     pub fn record(seed: u64) -> Self {
         Chooser {
             rng: Some(Xoshiro::new(seed)),
-            choices: Vec::new(),
+            choices: vec![Vec::new()],
+            seg: 0,
             pos: 0,
             seed,
             draws: 0,
         }
     }
 
-    pub fn replay(seed: u64, choices: Vec<u32>) -> Self {
+    pub fn replay(seed: u64, choices: Vec<Vec<u32>>) -> Self {
         Chooser {
             rng: None,
             choices,
+            seg: 0,
             pos: 0,
             seed,
             draws: 0,
         }
+    }
+
+    /// Start a new segment (one scheduler step).
+    pub fn mark(&mut self) {
+        if self.rng.is_some() {
+            self.choices.push(Vec::new());
+        }
+        self.seg += 1;
+        self.pos = 0;
+    }
+
+    /// In replay mode: are there recorded segments left after the current one?
+    pub fn exhausted(&self) -> bool {
+        self.rng.is_none() && self.seg + 1 >= self.choices.len()
     }
 
     /// Uniform draw in `0..n` (`n >= 1`). 0 is always the benign alternative.
     pub fn pick(&mut self, n: u32) -> u32 {
         self.draws += 1;
-        if n <= 1 {
-            // Still consume a slot so that the vector layout does not depend on n.
-            if let Some(_) = self.rng {
-                self.choices.push(0);
-            } else {
-                self.pos += 1;
-            }
-            return 0;
-        }
         match &mut self.rng {
             Some(r) => {
-                let v = (r.next() % n as u64) as u32;
-                self.choices.push(v);
+                let v = if n <= 1 { 0 } else { (r.next() % n as u64) as u32 };
+                self.choices.last_mut().unwrap().push(v);
                 v
             }
             None => {
-                let v = self.choices.get(self.pos).copied().unwrap_or(0);
+                let v = self.choices.get(self.seg).and_then(|s| s.get(self.pos)).copied().unwrap_or(0);
                 self.pos += 1;
-                v % n
+                if n <= 1 {
+                    0
+                } else {
+                    v % n
+                }
             }
         }
     }
